@@ -10,8 +10,9 @@
 (*                                                                         *)
 (* Definition layer                                                         *)
 (*   * tab-separated lines: Split, record lines of a file (comment lines    *)
-(*     and empty lines are no records), the column count of a file is the   *)
-(*     one of its first record (every other count is an error);             *)
+(*     and empty lines are no records); a GFF record has exactly 9 columns, *)
+(*     the column count of a BED file is the one of its first record (every *)
+(*     other count is an error for that record);                            *)
 (*   * U64 tokens (what Rust's u64::from_str accepts) and their canonical   *)
 (*     form;                                                                *)
 (*   * ParseAttrs(dl, col): the meaning of the reader's attribute regular   *)
@@ -198,14 +199,16 @@ BedLine(f) ==
     ELSE IF ~IsU64(f[2]) \/ ~IsU64(f[3]) THEN Err
     ELSE [ok |-> 1, chrom |-> f[1], start |-> Canon(f[2]), end |-> Canon(f[3]), aux |-> SubSeq(f, 4, Len(f))]
 
-\* records of a file: the column count of the first record is binding for all
+\* records of a file.  BED: the number of columns is a property of the file ("uniform
+\* column count"): the count of the first record is binding, every other count is an error.
+\* GFF: a record has exactly 9 columns; a line with any other count is an error for that
+\* record only (GffLine), whatever the other lines look like.
 ExpectedCols(ls) == IF ls = << >> THEN 0 ELSE NumPieces(ls[1], TAB)
-GffRecordOf(dl, line, ncols) ==
-    LET f == Split(line, TAB) IN IF Len(f) # ncols THEN Err ELSE GffLine(dl, f)
+GffRecordOf(dl, line) == GffLine(dl, Split(line, TAB))
 BedRecordOf(line, ncols) ==
     LET f == Split(line, TAB) IN IF Len(f) # ncols THEN Err ELSE BedLine(f)
 ParseGff(dl, bytes) ==
-    LET ls == RecordLines(bytes) IN [i \in 1..Len(ls) |-> GffRecordOf(dl, ls[i], ExpectedCols(ls))]
+    LET ls == RecordLines(bytes) IN [i \in 1..Len(ls) |-> GffRecordOf(dl, ls[i])]
 ParseBed(bytes) ==
     LET ls == RecordLines(bytes) IN [i \in 1..Len(ls) |-> BedRecordOf(ls[i], ExpectedCols(ls))]
 \* lines on which the model is deliberately silent (hexadecimal integers)
